@@ -235,7 +235,8 @@ class Deployed:
     def __init__(self, prog, cfg, src=None):
         self.prog, self.cfg = prog, cfg
         self.src = src if src is not None else prog.vy()
-        self.out = compile_src(self.src, cfg)
+        # no `abi` output: under experimental_codegen it runs the legacy generator as well (gas estimates)
+        self.out = compile_src(self.src, cfg, formats=("bytecode", "layout"))
         self.chain = Chain(cfg.evm)
         self.addr = self.chain.deploy(bytes.fromhex(self.out["bytecode"][2:]))
         if self.addr is None:
